@@ -44,3 +44,11 @@ s = Schema([Msg('M0', [Field('f1', 1, L_OPT, T_MESSAGE, sub=1)]),
                        Field('s', 3, L_OPT, T_INT32, flags=F_ONEOF, group=0)], ngroups=1)], 2)
 write('F23_C10.case', s, 0, rec(1, 2, rec(2, 2, rec(1, 0, b'\x07'))) + rec(1, 2, rec(3, 0, b'\x01') + rec(2, 2, b'')),
       'F23: f1{m{x=7}} f1{s=1 m{}}: s=1 clears m in the stream, so m is a fresh empty message for the reference')
+
+
+# F8: unbounded recursion: 20000 nested sub-messages (74 KB) overflow the C stack
+s = Schema([Msg('M0', [Field('f1', 1, L_OPT, T_MESSAGE, sub=0)])], 2)
+b = b''
+for _ in range(20000):
+    b = rec(1, 2, b)
+write('F8_C05.case', s, 0, b, 'F8: message M0 { optional M0 f1 = 1; } nested 20000 deep: protobuf_c_message_unpack recurses once per level')
